@@ -42,6 +42,11 @@ def gen_case(rng, tag, scen=None):
     cts = std_types(V, roles, [3] * nc)
     for ct in cts:
         ct["avggr"] = rng.choice([0.0, V * 2e3, V * 1e4])            # growth over the horizon
+        # every force term switched on in some twins (the shipped parameter files leave angle regularisation and bending at 0)
+        ct["angreg"] = rng.choice([0.0, 2e-15, 1e-14])
+        if rng.random() < 0.4:
+            for ft in ct["fts"]:
+                ft["bend"] = rng.choice([1e-18, 4e-18])
     gap = {"single": 3.0, "adhering": rng.choice([2.02, 2.08]), "overlap": rng.choice([1.8, 1.95]), "divide": rng.choice([2.05, 2.6]), "mixed": rng.choice([1.95, 2.05, 2.3])}[scen]
     cells = []
     for i in range(nc):
